@@ -16,6 +16,7 @@ IMM = "src/allmydata/storage/immutable.py"
 MUT = "src/allmydata/storage/mutable.py"
 CLIENT = "src/allmydata/client.py"
 SERVER = "src/allmydata/storage/server.py"
+CRAWLER = "src/allmydata/storage/crawler.py"
 
 BUG = "                age_limit = original_expiration_time\n"
 FIX = "                age_limit = original_expiration_time - grant_renew_time\n"
@@ -164,6 +165,69 @@ MUTANTS = [
        "        space_freed = self.LEASE_SIZE * num_leases_removed\n        if not len(leases):\n",
        "        space_freed = self.LEASE_SIZE * num_leases_removed\n        if not len(leases) and not num_leases_removed:\n",
        "C26.7", note="unlink conjoined with a counter test that is false after every successful cancellation"),
+    # ---- C26.8 'no lease remains' covers every lease of the share
+    mk("mutable-stop-scanning-at-the-match", MUT,
+       "                    modified += 1\n                else:\n                    remaining += 1\n",
+       "                    modified += 1\n                    break\n                remaining += 1\n", "C26.8",
+       note="seeded C26-C: 'remaining' only counts the slots in front of the cancelled lease"),
+    mk("mutable-stop-scanning-once-modified", MUT,
+       "                else:\n                    remaining += 1\n            if modified:\n",
+       "                else:\n                    remaining += 1\n                if modified:\n                    break\n            if modified:\n",
+       "C26.8", note="same effect, the break sits at the end of the loop body"),
+    mk("mutable-unlink-decided-at-the-match", MUT,
+       "                    self._write_lease_record(f, leasenum, blank_lease)\n                    modified += 1\n",
+       "                    self._write_lease_record(f, leasenum, blank_lease)\n                    modified += 1\n"
+       "                    if not remaining:\n                        self.unlink()\n                        return 0\n",
+       "C26.8", note="the unlink decision taken from inside the enumeration"),
+    mk("mutable-only-first-slots-scanned", MUT,
+       "            for (leasenum,lease) in self._enumerate_leases(f):\n                accepting_nodeids.add(lease.nodeid)\n                if lease.is_cancel_secret",
+       "            for (leasenum,lease) in list(self._enumerate_leases(f))[:4]:\n                accepting_nodeids.add(lease.nodeid)\n                if lease.is_cancel_secret",
+       "C26.8", note="only the four header slots are looked at; leases in the extra-lease area are not counted"),
+    mk("immutable-remaining-cut-before-filtering", IMM,
+       "            leases = [l for l in leases if l] # remove the cancelled leases\n",
+       "            leases = [l for l in leases[:len(leases) - num_leases_removed] if l] # remove the cancelled leases\n",
+       "C26.8", note="the list is cut to its new length before the cancelled entries are filtered out: trailing valid leases are lost"),
+    # ---- C26.9 (adopted from C27) every cycle reaches every bucket
+    mk("resume-marker-reset-moved-into-replaced-hook", CRAWLER,
+       "        state[\"last-complete-bucket\"] = None\n        state[\"last-cycle-finished\"] = cycle\n",
+       "        state[\"last-cycle-finished\"] = cycle\n", "C26.9",
+       edits=[(CRAWLER, "        This method is for subclasses to override. No upcall is necessary.\n        \"\"\"\n        pass\n\n    def process_bucket(",
+               "        This method is for subclasses to override.\n        \"\"\"\n        self.state[\"last-complete-bucket\"] = None\n\n    def process_bucket(")],
+       note="seeded C26-D: the expirer replaces started_cycle, so it keeps the previous cycle's resume marker"),
+    mk("prefix-index-not-rewound", CRAWLER,
+       "        self.last_complete_prefix_index = -1\n        self.last_prefix_finished_time = None # don't include the sleep\n",
+       "        self.last_prefix_finished_time = None # don't include the sleep\n", "C26.9",
+       note="the second cycle starts behind the last prefix and examines nothing"),
+    mk("skip-bucket-equal-or-greater", CRAWLER,
+       "            if last_complete is not None and bucket <= last_complete:\n",
+       "            if last_complete is not None and bucket >= last_complete:\n", "C26.9",
+       note="after a resume the unprocessed buckets are the ones skipped"),
+    # ---- C26.11 the hooks the expirer replaces carry no bookkeeping
+    mk("prefix-rewind-moved-into-finished-cycle-hook", CRAWLER,
+       "        self.last_complete_prefix_index = -1\n        self.last_prefix_finished_time = None # don't include the sleep\n",
+       "        self.last_prefix_finished_time = None # don't include the sleep\n", "C26.11",
+       edits=[(CRAWLER, "        This method is for subclasses to override. No upcall is necessary.\n        \"\"\"\n        pass\n\n    def yielding(",
+               "        This method is for subclasses to override.\n        \"\"\"\n        self.last_complete_prefix_index = -1\n\n    def yielding(")],
+       note="same slip as C26-D at the sibling hook: LeaseCheckingCrawler.finished_cycle has no upcall"),
+    mk("resume-marker-reset-in-replaced-hook-via-helper", CRAWLER,
+       "        state[\"last-complete-bucket\"] = None\n        state[\"last-cycle-finished\"] = cycle\n",
+       "        state[\"last-cycle-finished\"] = cycle\n", "C26.11",
+       edits=[(CRAWLER, "        This method is for subclasses to override. No upcall is necessary.\n        \"\"\"\n        pass\n\n    def process_bucket(",
+               "        This method is for subclasses to override.\n        \"\"\"\n        self._forget_resume_position()\n\n"
+               "    def _forget_resume_position(self):\n        self.state.update({\"last-complete-bucket\": None})\n\n    def process_bucket(")],
+       note="the reset reached through a helper and dict.update"),
+    # ---- C26.10 (adopted from C25) the enumerations hand out every lease
+    mk("enumeration-stops-at-first-empty-slot", MUT,
+       "                if data is not None:\n                    yield i,data\n",
+       "                if data is None:\n                    return\n                yield i,data\n", "C26.8",
+       note="a blanked (cancelled) slot hides every lease behind it: they are neither examined nor counted as remaining"),
+    mk("enumeration-slot-number-off-by-one", MUT,
+       "                if data is not None:\n                    yield i,data\n",
+       "                if data is not None:\n                    yield i+1,data\n", "C26.10",
+       note="cancel_lease blanks the neighbour of the expired lease"),
+    mk("expired-record-read-as-empty-slot", MUT,
+       "        if lease_info.owner_num == 0:\n            return None\n",
+       "        if lease_info.owner_num == 0 or lease_info.get_expiration_time() == 0:\n            return None\n", "C26.10"),
     # ---- C26.5 configuration plumbing
     mk("client-mode-optional-when-enabled", CLIENT, "        if expire:\n            mode =", "        if not expire:\n            mode =",
        "C26.5", note="sweep survivor: expiry enabled without a mode starts deleting by age"),
@@ -280,6 +344,31 @@ MUTANTS = [
        "        else:\n            mode = self.config.get_config(\"storage\", \"expire.mode\", \"age\")\n",
        "        if not expire:\n            mode = self.config.get_config(\"storage\", \"expire.mode\", \"age\")\n"
        "        else:\n            mode = self.config.get_config(\"storage\", \"expire.mode\") # require a mode\n", None),
+    mk("benign-mutable-stop-once-share-is-kept", MUT,
+       "                else:\n                    remaining += 1\n            if modified:\n",
+       "                else:\n                    remaining += 1\n                    if modified:\n                        break\n            if modified:\n",
+       None, note="the loop is left only after a lease was counted as remaining: the unlink test cannot pass on that path"),
+    mk("benign-mutable-enumeration-hoisted", MUT,
+       "            for (leasenum,lease) in self._enumerate_leases(f):\n                accepting_nodeids.add(lease.nodeid)\n                if lease.is_cancel_secret",
+       "            slots = self._enumerate_leases(f)\n            for (leasenum,lease) in slots:\n                accepting_nodeids.add(lease.nodeid)\n                if lease.is_cancel_secret",
+       None),
+    mk("benign-immutable-filter-is-not-none", IMM,
+       "            leases = [l for l in leases if l] # remove the cancelled leases\n",
+       "            leases = [l for l in list(leases) if l is not None] # remove the cancelled leases\n", None),
+    mk("benign-end-of-cycle-resets-reordered", CRAWLER,
+       "        state[\"last-complete-bucket\"] = None\n        state[\"last-cycle-finished\"] = cycle\n        state[\"current-cycle\"] = None\n",
+       "        state[\"last-cycle-finished\"] = cycle\n        state[\"current-cycle\"] = None\n        state[\"last-complete-bucket\"] = None\n", None),
+    mk("benign-expirer-hook-upcalls", EXP,
+       "    def started_cycle(self, cycle):\n        self.state[\"cycle-to-date\"] = self.create_empty_cycle_dict()\n",
+       "    def started_cycle(self, cycle):\n        ShareCrawler.started_cycle(self, cycle)\n        self.state[\"cycle-to-date\"] = self.create_empty_cycle_dict()\n",
+       None),
+    mk("benign-base-hook-keeps-a-statistic", CRAWLER,
+       "        This method is for subclasses to override. No upcall is necessary.\n        \"\"\"\n        pass\n\n    def process_bucket(",
+       "        This method is for subclasses to override. No upcall is necessary.\n        \"\"\"\n        self.last_cycle_announced = cycle\n\n    def process_bucket(",
+       None, note="a replaced hook may do things that are not traversal bookkeeping"),
+    mk("benign-enumeration-skips-empty-slots-with-continue", MUT,
+       "                if data is not None:\n                    yield i,data\n",
+       "                if data is None:\n                    continue\n                yield i,data\n", None),
     # ---- vanished anchors
     mk("vanish-process-share", EXP, "    def process_share(self, sharefilename):", "    def process_shareX(self, sharefilename):",
        "ANALYSIS-ERROR"),
